@@ -207,6 +207,11 @@ class CollectionIndex(Contract):
             o = SObj(K[k], {"id": I.fresh(f"id{i}", "opaque", "UUID") if has_id else None, "name": I.fresh(f"name{i}", "str") if has_name else None}, lazy=True)
             o.ghost["k"] = k
             objs.append(o)
+        for kind in ("id", "name"):          # distinct rules have distinct ids and names (duplicates are the business of the uniqueness validators, C19)
+            vs = [o.fields[kind] for o in objs if o.fields[kind] is not None]
+            for i in range(len(vs)):
+                for j in range(i + 1, len(vs)):
+                    I.ctx.assume(vs[i].t != vs[j].t)
         me = SObj(idx.lookup("sigma.collection:SigmaCollection"), {"rules": [], "filters": [], "errors": []}, lazy=True)
         return {"self": me, "args": [objs, True, False], "objs": objs}
 
